@@ -243,6 +243,48 @@ def unbiased(G, ctx, n_runs, N, with_kernel, use_prop):
     ctx.count("unbiased")
 
 
+def unbiased_systematic(G, ctx, n_runs, N):
+    """hand-composed init -> resample(systematic) -> extend: the evidence estimate stays unbiased through SYSTEMATIC resampling
+    (offspring counts must be unbiased for the later extend to be properly weighted); discrete-mixture-free Gaussian model, exact Kalman evidence"""
+    import jax
+    import jax.numpy as jnp
+    import jax.random as jr
+    from genjax.inference.smc import extend, init, resample
+    model, prop0, prop_t, obs, getx, qmean = setup(G, False)
+    ys = [1.2, -0.7]                      # moderately uneven weights after init, moderate variance of the estimate
+    m, P, lz = 0.0, 1.0, 0.0
+    for t, y in enumerate(ys):
+        if t > 0:
+            m, P = 0.8 * m, 0.64 * P + 1.0
+        S = P + 0.25
+        lz += npdf(float(y), m, math.sqrt(S))
+        k = P / S
+        m, P = m + k * (float(y) - m), P - k * P
+
+    def run(key):
+        def pipe():
+            p0 = init(model, (jnp.float32(0.0),), G.const(N), obs(ys[0]))
+            p1 = resample(p0, method="systematic")
+            p2 = extend(p1, model, p1.traces.get_retval(), obs(ys[1]))
+            return p2.log_marginal_likelihood()
+        return G.seed(pipe)(key)
+
+    case = {"kind": "unbiased-systematic", "N": N, "runs": n_runs}
+    try:
+        lmls = np.asarray(jax.jit(jax.vmap(run))(jr.split(jr.key(ctx.seed + 78), n_runs)), dtype=np.float64)
+    except Exception as ex:
+        impl.reset_handlers()
+        ctx.property_failure(None, f"init -> resample(systematic) -> extend raised {type(ex).__name__}: {str(ex)[:200]}", case)
+        return
+    ratio = np.exp(lmls - lz)
+    mean, se = ratio.mean(), ratio.std(ddof=1) / math.sqrt(n_runs)
+    case.update({"mean_Zhat_over_Z": float(mean), "se": float(se)})
+    if not np.isfinite(mean) or abs(mean - 1.0) > 5.5 * se + 1e-3:
+        ctx.property_failure(None, f"init -> resample(systematic) -> extend: E[exp(log_marginal_likelihood)]/Z = {mean:.4f} +- {se:.4f} over {n_runs} seeded runs (N={N})", case)
+    ctx.case(sample=case, nontrivial_key=("unbiased-systematic", N))
+    ctx.count("unbiased-systematic")
+
+
 def model_self_check(ctx):
     """exact expectation in the Lean model on a tiny discrete system = exact evidence"""
     r = sexp.loads(common.driver_run([sexp.dumps(["smc-exact", 2])])[0])
@@ -258,6 +300,8 @@ def shard(ctx, jobs):
             pipeline(G, ctx, *j[1:])
         elif j[0] == "partial":
             partial_proposal(G, ctx, *j[1:])
+        elif j[0] == "systematic":
+            unbiased_systematic(G, ctx, *j[1:])
         else:
             unbiased(G, ctx, *j[1:])
 
@@ -269,6 +313,7 @@ def run(ctx, audit):
             for N in ((1, 2, 3, 5, 8) if ctx.thorough else (1, 3, 5)):
                 jobs.append(("pipeline", nested, use_prop, N, ctx.seed * 10 + N))
     jobs += [("partial", 4, ctx.seed * 10 + 1), ("partial", 1, ctx.seed * 10 + 2)]
+    jobs += [("systematic", 120000 if ctx.thorough else 60000, 4), ("systematic", 60000 if ctx.thorough else 30000, 3)]
     runs = 6000 if ctx.thorough else 1500
     jobs += [("unbiased", runs, 4, True, False), ("unbiased", runs, 3, False, True), ("unbiased", runs, 1, False, False)]
     if ctx.thorough:
@@ -286,6 +331,8 @@ def replay(ctx, payload):
     c = payload.get("case") or {}
     if c.get("kind") == "pipeline":
         pipeline(G, ctx, c["nested"], c["proposal"], c["N"], c["key"])
+    elif c.get("kind") == "unbiased-systematic":
+        unbiased_systematic(G, ctx, c["runs"], c["N"])
     elif c.get("kind") == "partial-proposal":
         partial_proposal(G, ctx, c["N"], c["key"])
     elif c.get("kind") == "unbiased":
